@@ -444,5 +444,59 @@ def r06_6(ctx):
     return r
 
 
+def r06_7(ctx):
+    """'... or moves the transport to Connected, whatever ... the ICE state': in WebRTC mode the keepalive tick moves a
+    Disconnected transport back to Connected (and keeps a Connected one from ever reaching Disconnected / Failed) on
+    the strength of ONE value: the time of the last inbound datagram. Whatever refreshes that timestamp influences the
+    ICE state like any other effect. DTLS and media refresh it as they arrive (they are authenticated further up and
+    are not STUN); a STUN message may refresh it only once it has proved that it belongs to this session - a request past
+    the credential check, a response that matches a transaction of ours. Decided: every refresh of the liveness
+    timestamp on the inbound path is cut by one of: first byte >= 2 (not STUN), the Some edge of
+    pending_transactions.remove(id), the verification-succeeded / not-WebRTC edges of the request handler."""
+    r = RuleResult("R06.7", "K1", "only session traffic refreshes the liveness timestamp that moves the transport (back) to Connected")
+    field = "last_received_nanos"
+    # functions that refresh the timestamp themselves
+    direct = {}
+    for b in ctx.facts.bodies(prefix="transports::ice::"):
+        if "::tests::" in b.name:
+            continue
+        st = [bi for bi, t, args in core.atomic_sites(b, field, "store")]
+        if st:
+            direct[b.name] = st
+    if not direct:
+        raise core.CheckerError("R06.7: no writer of the liveness timestamp found")
+    HP = "transports::ice::handle_packet::{closure#0}"
+    n = 0
+    for name in (HP, REQ):
+        b = ctx.body(name)
+        r.scope.append(name)
+        sites = list(direct.get(name, [])) + [bi for bi, t, p in b.calls() if p in direct and bi not in b.cleanup]
+        if name == HP:
+            def not_stun(term, meaning, *_):
+                if term[0] == "bin" and isinstance(meaning, bool) and mir.int_value(term[3]) == 2 and \
+                        mir.has(term[2], lambda x: x[0] == "index" or (x[0] == "field" and x[2] == "packet") or x == ("arg", "packet")):
+                    return meaning is (term[1] in ("Ge", "Gt")) if term[1] in ("Ge", "Lt") else False
+                return False
+
+            def matched(term, meaning, *_):
+                return term[0] == "discr" and meaning == "Some" and mir.has(term[1], lambda x: x[0] == "call" and x[1].endswith("::remove") and
+                                                                           mir.has_field(x, "pending_transactions"))
+            g = core.guard_edges(b, not_stun) + core.guard_edges(b, matched)
+            why = "not STUN (first byte >= 2), or a response matching an outstanding transaction"
+        else:
+            g = core.guard_edges(b, _authenticated_edge) + core.guard_edges(b, _not_webrtc_edge)
+            why = "credential verification succeeded / not WebRTC mode"
+        for bi in sites:
+            n += 1
+            if g and core.k1(b, [bi], g, fresh_per_iteration=True)[bi] is None:
+                r.ok({"site": b.where(bi), "cut_by": why})
+            else:
+                r.violate(name, "alive:unauthenticated", b.where(bi),
+                          "the liveness timestamp is refreshed by a datagram that has proved nothing: anybody's bare Binding request brings a "
+                          "Disconnected transport back to Connected and keeps a dead one from ever failing")
+    r.need("liveness refresh sites on the inbound path", n, 1)
+    return r
+
+
 def run(ctx):
-    return [r06_1(ctx), r06_2(ctx), r06_3(ctx), r06_4(ctx), r06_5(ctx), r06_6(ctx)]
+    return [r06_1(ctx), r06_2(ctx), r06_3(ctx), r06_4(ctx), r06_5(ctx), r06_6(ctx), r06_7(ctx)]
